@@ -6,7 +6,8 @@ V = Path(__file__).resolve().parent.parent
 rows = []
 for f in sorted(glob.glob(str(V / "seeded" / "*" / "meta.json"))):
     m = json.load(open(f))
-    rows.append(f"| {m['id']} | {m['property']} | {m['caught_by_check']} | {m['needs_to_manifest']} | {'; '.join('`%s`' % s for s in m['violation_signatures'])} |")
+    esc = lambda x: x.replace("|", "\\|")
+    rows.append(f"| {m['id']} | {m['property']} | {m['caught_by_check']} | {esc(m['needs_to_manifest'])} | {esc('; '.join('`%s`' % s for s in m['violation_signatures']))} |")
 text = """## 14. Seeded changes: which check catches what
 
 Every change below was written by a fresh sub-agent that was given only the text of the property and its own scratch
